@@ -22,107 +22,101 @@ Definition widx (out : list cval) : list (option N) := map fst (value_field_args
 Lemma widx_app a b : widx (a ++ b) = widx a ++ widx b.
 Proof. unfold widx, value_field_args. rewrite flat_map_app, map_app. reflexivity. Qed.
 
-(* numbered idx, idx+1, ..., idx+k-1 and the counter ends at idx+k *)
-Definition consecutive (r : list cval * N) (idx : N) : Prop :=
-  exists k, widx (fst r) = map Some (nseq idx k) /\ snd r = idx + N.of_nat k.
-
-Lemma consecutive_seq r1 r2 idx :
-  consecutive r1 idx -> consecutive r2 (snd r1) -> consecutive (fst r1 ++ fst r2, snd r2) idx.
-Proof.
-  intros [k1 [A1 B1]] [k2 [A2 B2]]. exists (k1 + k2)%nat. cbn [fst snd]. split.
-  - rewrite widx_app, A1, A2, B1, nseq_app, map_app. reflexivity.
-  - rewrite B2, B1. lia.
-Qed.
-Lemma consecutive_lit l r idx : widx l = [] -> consecutive r idx -> consecutive (l ++ fst r, snd r) idx.
-Proof.
-  intros Hl [k [A B]]. exists k. cbn [fst snd]. split; [rewrite widx_app, Hl; exact A|exact B].
-Qed.
-Lemma consecutive_lit_r l r idx : widx l = [] -> consecutive r idx -> consecutive (fst r ++ l, snd r) idx.
-Proof.
-  intros Hl [k [A B]]. exists k. cbn [fst snd]. split; [rewrite widx_app, Hl, app_nil_r; exact A|exact B].
-Qed.
-Lemma consecutive_nil idx : consecutive ([], idx) idx.
-Proof. exists O. split; [reflexivity|cbn; lia]. Qed.
-
-(* the two local loops of wrap_val, named *)
+(* the two local loops of wrap_val, named; they are wrap_list / wrap_args *)
 Definition wloc_arg (cfg : sconfig) :=
   fix wrap_arg (vs : list cval) (idx : N) : list cval * N :=
     match vs with
     | [] => ([], idx)
     | x :: xs => let '(o1, i1) := wrap_val cfg x idx in
-                 let '(o2, i2) := wrap_arg xs i1 in (o1 ++ o2, i2)
+                 let '(o2, i2) := wrap_arg xs i1 in (o1 :: o2, i2)
     end.
-Definition wloc_args (cfg : sconfig) (max_i : nat) :=
-  fix wrap_args (l : list (list cval)) (i : nat) (idx : N) : list cval * N :=
+Definition wloc_args (cfg : sconfig) :=
+  fix wrap_args (l : list (list cval)) (idx : N) : list (list cval) * N :=
     match l with
     | [] => ([], idx)
     | arg :: r =>
         let '(o1, i1) := wloc_arg cfg arg idx in
-        let sep := if Nat.eqb i max_i then [] else [synth (CLiteral (lit ", "))] in
-        let '(o2, i2) := wrap_args r (S i) i1 in
-        (o1 ++ sep ++ o2, i2)
+        let '(o2, i2) := wrap_args r i1 in
+        (o1 :: o2, i2)
     end.
+Lemma wloc_arg_eq cfg vs : forall idx, wloc_arg cfg vs idx = wrap_list cfg vs idx.
+Proof.
+  induction vs as [|x xs IH]; intros idx; cbn [wloc_arg wrap_list]; [reflexivity|].
+  destruct (wrap_val cfg x idx) as [o1 i1]. fold (wloc_arg cfg). rewrite IH. reflexivity.
+Qed.
+Lemma wloc_args_eq cfg l : forall idx, wloc_args cfg l idx = wrap_args cfg l idx.
+Proof.
+  induction l as [|a r IH]; intros idx; cbn [wloc_args wrap_args]; [reflexivity|].
+  rewrite wloc_arg_eq. destruct (wrap_list cfg a idx) as [o1 i1]. fold (wloc_args cfg). rewrite IH. reflexivity.
+Qed.
 Lemma wrap_val_func cfg name args idx :
   wrap_val cfg (VFunc name args) idx =
-  let '(body, idx') := wloc_args cfg (length args - 1)%nat args O (idx + 1) in
-  ([synth (CField name (Some idx)); synth (CLiteral [c_lparen])] ++ body ++ [synth (CLiteral [c_rparen])], idx').
+  let '(args', idx') := wrap_args cfg args idx in (VFunc name args', idx').
+Proof. rewrite <- wloc_args_eq. reflexivity. Qed.
+
+(* the field indices of a wrapped token / value / argument list *)
+Definition tidx (v : cval) : list (option N) := map fst (tok_field_args v).
+Definition aidx (args : list (list cval)) : list (option N) := map fst (flat_map value_field_args args).
+Lemma widx_cons v vs : widx (v :: vs) = tidx v ++ widx vs.
+Proof. unfold widx, tidx, value_field_args. cbn [flat_map]. apply map_app. Qed.
+Lemma aidx_cons a r : aidx (a :: r) = widx a ++ aidx r.
+Proof. unfold aidx, widx. cbn [flat_map]. apply map_app. Qed.
+Lemma tidx_func name args : tidx (VFunc name args) = aidx args.
 Proof. reflexivity. Qed.
 
-Definition val_ok (cfg : sconfig) (v : cval) : Prop :=
-  has_field_val v = false -> forall idx, consecutive (wrap_val cfg v idx) idx.
-
-Lemma wloc_arg_ok cfg vs : Forall (val_ok cfg) vs -> existsb has_field_val vs = false ->
-  forall idx, consecutive (wloc_arg cfg vs idx) idx.
+(* numbered idx, idx+1, ..., idx+k-1 and the counter ends at idx+k *)
+Definition consec (l : list (option N)) (idx idx' : N) : Prop :=
+  exists k, l = map Some (nseq idx k) /\ idx' = idx + N.of_nat k.
+Lemma consec_nil idx : consec [] idx idx.
+Proof. exists O. split; [reflexivity|cbn; lia]. Qed.
+Lemma consec_app l1 l2 a b c : consec l1 a b -> consec l2 b c -> consec (l1 ++ l2) a c.
 Proof.
-  induction 1 as [|x xs Hx _ IH]; intros Hf idx; cbn [wloc_arg]; [apply consecutive_nil|].
+  intros [k1 [A1 B1]] [k2 [A2 B2]]. exists (k1 + k2)%nat. split.
+  - rewrite A1, A2, B1, nseq_app, map_app. reflexivity.
+  - rewrite B2, B1. lia.
+Qed.
+
+Definition val_ok (cfg : sconfig) (v : cval) : Prop :=
+  has_field_val v = false -> forall idx, consec (tidx (fst (wrap_val cfg v idx))) idx (snd (wrap_val cfg v idx)).
+
+Lemma wrap_list_ok_gen cfg vs : Forall (val_ok cfg) vs -> existsb has_field_val vs = false ->
+  forall idx, consec (widx (fst (wrap_list cfg vs idx))) idx (snd (wrap_list cfg vs idx)).
+Proof.
+  induction 1 as [|x xs Hx _ IH]; intros Hf idx; cbn [wrap_list]; [apply consec_nil|].
   cbn [existsb] in Hf. apply orb_false_elim in Hf. destruct Hf as [F1 F2].
   specialize (Hx F1 idx). destruct (wrap_val cfg x idx) as [o1 i1] eqn:E1.
-  specialize (IH F2 i1). fold (wloc_arg cfg) in *. destruct (wloc_arg cfg xs i1) as [o2 i2] eqn:E2.
-  apply (consecutive_seq (o1, i1) (o2, i2) idx Hx IH).
+  specialize (IH F2 i1). destruct (wrap_list cfg xs i1) as [o2 i2] eqn:E2.
+  cbn [fst snd] in *. rewrite widx_cons. eapply consec_app; eassumption.
 Qed.
 
-Lemma wloc_args_ok cfg m args : Forall (Forall (val_ok cfg)) args ->
+Lemma wrap_args_ok_gen cfg args : Forall (Forall (val_ok cfg)) args ->
   existsb (fun a => existsb has_field_val a) args = false ->
-  forall i idx, consecutive (wloc_args cfg m args i idx) idx.
+  forall idx, consec (aidx (fst (wrap_args cfg args idx))) idx (snd (wrap_args cfg args idx)).
 Proof.
-  induction 1 as [|a r Ha _ IH]; intros Hf i idx; cbn [wloc_args]; [apply consecutive_nil|].
+  induction 1 as [|a r Ha _ IH]; intros Hf idx; cbn [wrap_args]; [apply consec_nil|].
   cbn [existsb] in Hf. apply orb_false_elim in Hf. destruct Hf as [F1 F2].
-  pose proof (wloc_arg_ok cfg a Ha F1 idx) as H1. destruct (wloc_arg cfg a idx) as [o1 i1] eqn:E1.
-  specialize (IH F2 (S i) i1). fold (wloc_args cfg m) in *. destruct (wloc_args cfg m r (S i) i1) as [o2 i2] eqn:E2.
-  assert (H2 : consecutive ((if Nat.eqb i m then [] else [synth (CLiteral (lit ", "))]) ++ o2, i2) i1).
-  { apply (consecutive_lit _ (o2, i2) i1); [destruct (Nat.eqb i m); reflexivity|exact IH]. }
-  apply (consecutive_seq (o1, i1) (_, i2) idx H1 H2).
+  pose proof (wrap_list_ok_gen cfg a Ha F1 idx) as H1. destruct (wrap_list cfg a idx) as [o1 i1] eqn:E1.
+  specialize (IH F2 i1). destruct (wrap_args cfg r i1) as [o2 i2] eqn:E2.
+  cbn [fst snd] in *. rewrite aidx_cons. eapply consec_app; eassumption.
 Qed.
 
-Lemma consecutive_one (t : cval) idx : widx [t] = [Some idx] -> consecutive ([t], idx + 1) idx.
-Proof. intros H. exists 1%nat. split; [exact H|cbn; lia]. Qed.
+Lemma consec_one idx : consec [Some idx] idx (idx + 1).
+Proof. exists 1%nat. split; [reflexivity|cbn; lia]. Qed.
 
 Lemma wrap_val_ok cfg v : val_ok cfg v.
 Proof.
   induction v as [k st en|name args IH] using cval_ind2; unfold val_ok; intros Hf idx.
-  - destruct k; cbn [wrap_val]; try (apply consecutive_one; reflexivity);
-      try (exists O; split; [reflexivity|cbn; lia]).
+  - destruct k; cbn [wrap_val fst snd]; try apply consec_one; try apply consec_nil.
     cbn in Hf. discriminate.
   - rewrite wrap_val_func. cbn [has_field_val] in Hf.
-    pose proof (wloc_args_ok cfg (length args - 1)%nat args IH Hf O (idx + 1)) as H.
-    destruct (wloc_args cfg (length args - 1)%nat args O (idx + 1)) as [body idx'] eqn:E.
-    assert (H2 : consecutive (body ++ [synth (CLiteral [c_rparen])], idx') (idx + 1)).
-    { apply (consecutive_lit_r _ (body, idx') (idx + 1)); [reflexivity|exact H]. }
-    destruct H2 as [k [A B]]. exists (S k). cbn [fst snd]. split.
-    + change ([synth (CField name (Some idx)); synth (CLiteral [c_lparen])] ++ body ++ [synth (CLiteral [c_rparen])])
-        with ([synth (CField name (Some idx))] ++ [synth (CLiteral [c_lparen])] ++ body ++ [synth (CLiteral [c_rparen])]).
-      rewrite !widx_app. cbn [fst] in A. rewrite <- widx_app, A. reflexivity.
-    + cbn [snd] in B. rewrite B. lia.
+    pose proof (wrap_args_ok_gen cfg args IH Hf idx) as H.
+    destruct (wrap_args cfg args idx) as [args' idx'] eqn:E. cbn [fst snd] in *.
+    rewrite tidx_func. exact H.
 Qed.
 
-Lemma wrap_list_ok cfg vs : existsb has_field_val vs = false -> forall idx, consecutive (wrap_list cfg vs idx) idx.
-Proof.
-  induction vs as [|x xs IH]; intros Hf idx; cbn [wrap_list]; [apply consecutive_nil|].
-  cbn [existsb] in Hf. apply orb_false_elim in Hf. destruct Hf as [F1 F2].
-  pose proof (wrap_val_ok cfg x F1 idx) as H1. destruct (wrap_val cfg x idx) as [o1 i1] eqn:E1.
-  specialize (IH F2 i1). destruct (wrap_list cfg xs i1) as [o2 i2] eqn:E2.
-  apply (consecutive_seq (o1, i1) (o2, i2) idx H1 IH).
-Qed.
+Lemma wrap_list_ok cfg vs : existsb has_field_val vs = false ->
+  forall idx, consec (widx (fst (wrap_list cfg vs idx))) idx (snd (wrap_list cfg vs idx)).
+Proof. apply wrap_list_ok_gen, Forall_all. intros v. apply wrap_val_ok. Qed.
 
 (* wrap_with_field(value, config): the generated tabstops are 1, 2, ..., k in document order *)
 Theorem wrap_with_field_numbering cfg node :
